@@ -284,7 +284,7 @@ func (r *storeRun) searchFull(st *comet.PersistentHybridIndex, k int, withRef bo
 	ok := true
 	var msg string
 	if r.cv {
-		rs, err := st.NewSearch().WithVector([]float32{0, 0}).WithK(k).Execute()
+		rs, err := st.NewSearch().WithVector([]float32{1, 0}).WithK(k).Execute()
 		if err != nil {
 			ok, msg = false, err.Error()
 		}
@@ -319,7 +319,7 @@ func (r *storeRun) searchFull(st *comet.PersistentHybridIndex, k int, withRef bo
 	}
 	ref := []int{}
 	if withRef && r.cv && k < 100 {
-		rs, _ := r.mirror.NewSearch().WithVector([]float32{0, 0}).WithK(k).Execute()
+		rs, _ := r.mirror.NewSearch().WithVector([]float32{1, 0}).WithK(k).Execute()
 		ref = idsOf(rs)
 	}
 	r.emit("search.ret", E{"k": k, "resV": resV, "resT": resT, "resM": resM, "ok": ok, "ref": ref, "err": msg, "tm": tm && k >= 100, "hasT": r.ct, "hasM": r.cm, "cut": 0})
@@ -330,14 +330,14 @@ func (r *storeRun) searchThr(st *comet.PersistentHybridIndex, k, cut int) {
 	if !r.cv {
 		return
 	}
-	thr := float32(cut*cut) + 0.5 // squared L2 from the origin: document i sits at distance i*i
-	rs, err := st.NewSearch().WithVector([]float32{0, 0}).WithK(k).WithThreshold(thr).Execute()
+	thr := float32((cut-1)*(cut-1)) + 0.5 // squared L2 from the query at document 1: document i sits at distance (i-1)^2 (document 1 at exactly 0)
+	rs, err := st.NewSearch().WithVector([]float32{1, 0}).WithK(k).WithThreshold(thr).Execute()
 	msg := ""
 	if err != nil {
 		msg = err.Error()
 	}
 	ref := []int{}
-	mr, _ := r.mirror.NewSearch().WithVector([]float32{0, 0}).WithK(k).WithThreshold(thr).Execute()
+	mr, _ := r.mirror.NewSearch().WithVector([]float32{1, 0}).WithK(k).WithThreshold(thr).Execute()
 	ref = idsOf(mr)
 	r.emit("search.ret", E{"k": k, "cut": cut, "resV": idsOf(rs), "resT": []int{}, "resM": []int{}, "ok": err == nil, "ref": ref, "err": msg, "tm": false, "hasT": r.ct, "hasM": r.cm})
 }
